@@ -77,16 +77,20 @@ def _const_eval(node, env):
 def module_constants(tree):
     env = {}
     for node in tree.body:
-        if isinstance(node, ast.Assign) and len(node.targets) == 1 and isinstance(node.targets[0], ast.Name):
+        tgt = val = None
+        if isinstance(node, ast.Assign) and len(node.targets) == 1:
+            tgt, val = node.targets[0], node.value
+        elif isinstance(node, ast.AnnAssign) and node.value is not None:
+            tgt, val = node.target, node.value
+        if isinstance(tgt, ast.Name):
             try:
-                env[node.targets[0].id] = _const_eval(node.value, env)
+                env[tgt.id] = _const_eval(val, env)
             except ExtractError:
                 pass
     return env
 
 
-def struct_fmt(tree, cls, name):
-    val = _class_assign(tree, cls, name)
+def _struct_literal(val):
     if (
         isinstance(val, ast.Call)
         and isinstance(val.func, ast.Name)
@@ -96,6 +100,40 @@ def struct_fmt(tree, cls, name):
         and isinstance(val.args[0].value, str)
     ):
         return val.args[0].value
+    return None
+
+
+def all_structs(tree):
+    """every `NAME = Struct("<literal>")` of the module, at module level or in a class body: name -> format"""
+    out = {}
+    scopes = [tree.body] + [n.body for n in tree.body if isinstance(n, ast.ClassDef)]
+    for scope in scopes:
+        for st in scope:
+            if isinstance(st, ast.Assign) and len(st.targets) == 1 and isinstance(st.targets[0], ast.Name):
+                fmt = _struct_literal(st.value)
+                if fmt is not None:
+                    out.setdefault(st.targets[0].id, fmt)
+    return out
+
+
+def struct_fmt(tree, cls, name, previous=None):
+    """format of the struct that plays the role `cls.name`.  Looked up (1) as that class attribute, (2) under
+    the same name up to leading underscores anywhere in the module (a class attribute moved to module level),
+    (3) when the name is gone altogether: if exactly the format it had at the last extraction (`previous`) is
+    still defined by some Struct of the module, the role is taken to be unchanged — the correspondence on the
+    exported bytes is what checks that it really is."""
+    try:
+        fmt = _struct_literal(_class_assign(tree, cls, name))
+        if fmt is not None:
+            return fmt
+    except ExtractError:
+        pass
+    structs = all_structs(tree)
+    for nm, fmt in structs.items():
+        if nm.lstrip("_") == name.lstrip("_"):
+            return fmt
+    if previous is not None and previous in structs.values():
+        return previous
     raise ExtractError(f"{cls}.{name} is not Struct(<literal>)")
 
 
@@ -127,17 +165,60 @@ FLIP = {"lt": "gt", "le": "ge", "gt": "lt", "ge": "le", "eq": "eq", "ne": "ne"}
 NEGATE = {"lt": "ge", "le": "gt", "gt": "le", "ge": "lt", "eq": "ne", "ne": "eq"}
 
 
-def compare_shape(fn, left_word, right_word, what):
-    """(op, off): the first comparison in fn between something mentioning left_word (any expression when
-    None) and right_word reads  `subject op bound + off`.  Recognised spellings: the bound on either side,
-    an integer literal added to or subtracted from either side, and a directly enclosing `not`.  The
-    operator and offset are emitted as they are written; the canonical operator the models use is derived
-    from them by `canonical_guard`, and that derivation is re-proved in Lean on every run
-    (Lemmas/GuardCanon.lean), so it is checked, not trusted."""
-    negated = set()
+def _parents(fn):
+    par = {}
     for node in ast.walk(fn):
-        if isinstance(node, ast.UnaryOp) and isinstance(node.op, ast.Not) and isinstance(node.operand, ast.Compare):
-            negated.add(id(node.operand))
+        for ch in ast.iter_child_nodes(node):
+            par[id(ch)] = node
+    return par
+
+
+JUMPS = (ast.Return, ast.Continue, ast.Break, ast.Raise)
+
+
+def _has_marker(stmts, marker):
+    for st in stmts:
+        for node in ast.walk(st):
+            if marker(node):
+                return True
+    return False
+
+
+def marker_assigns(name):
+    """a statement that stores exactly the named bound (`cell = INT32_T_MAX`)"""
+
+    def m(node):
+        if isinstance(node, (ast.Assign, ast.AnnAssign)) and node.value is not None:
+            v = node.value
+            return (isinstance(v, ast.Name) and v.id == name) or (isinstance(v, ast.Attribute) and v.attr == name)
+        return False
+
+    return m
+
+
+def marker_calls(fragment):
+    """a call of something whose name contains the fragment (`self.__add_bloom_filter()`, `self.resize()`)"""
+
+    def m(node):
+        if isinstance(node, ast.Call):
+            f = node.func
+            nm = f.attr if isinstance(f, ast.Attribute) else (f.id if isinstance(f, ast.Name) else "")
+            return fragment in nm
+        return False
+
+    return m
+
+
+def compare_shape(fn, left_word, right_word, what, marker=None):
+    """(op, off): the first comparison in fn between something mentioning left_word (any expression when
+    None) and right_word, read as  `subject op bound + off`  AND oriented so that it is the condition under
+    which the guarded action (found by `marker`) is performed.  Recognised spellings: the bound on either
+    side; an integer literal added to or subtracted from either side; `not`, and `and` / `or` with other
+    conditions, around it; the action in the `if` body, in the `else` branch, or after an `if` whose body
+    leaves (return / continue / break / raise).  The operator and offset are emitted as read; the canonical
+    operator the models use is derived from them by `canonical_guard`, and that derivation is re-proved in
+    Lean on every run (Lemmas/GuardCanon.lean).  Anything else raises ExtractError: never a guess."""
+    par = _parents(fn)
     for node in ast.walk(fn):
         if isinstance(node, ast.Compare) and len(node.ops) == 1:
             op = CMP.get(type(node.ops[0]))
@@ -152,7 +233,47 @@ def compare_shape(fn, left_word, right_word, what):
                 continue
             _, ja = _split_offset(a)
             _, kb = _split_offset(b)
-            if id(node) in negated:
+            # the boolean context of the comparison, up to the statement that uses it
+            path = []  # "not" / "and" / "or", innermost first
+            cur = node
+            while True:
+                up = par.get(id(cur))
+                if isinstance(up, ast.UnaryOp) and isinstance(up.op, ast.Not):
+                    path.append("not")
+                elif isinstance(up, ast.BoolOp):
+                    path.append("and" if isinstance(up.op, ast.And) else "or")
+                else:
+                    break
+                cur = up
+            stmt = par.get(id(cur))
+            branch = 1
+            if marker is not None and isinstance(stmt, ast.If) and stmt.test is cur:
+                if _has_marker(stmt.body, marker):
+                    branch = 1
+                elif _has_marker(stmt.orelse, marker):
+                    branch = -1
+                else:
+                    block = None
+                    owner = par.get(id(stmt))
+                    for field in ("body", "orelse", "finalbody"):
+                        seq = getattr(owner, field, None)
+                        if isinstance(seq, list) and stmt in seq:
+                            block = seq
+                    after = block[block.index(stmt) + 1 :] if block else []
+                    if stmt.body and isinstance(stmt.body[-1], JUMPS) and not stmt.orelse and _has_marker(after, marker):
+                        branch = -1
+                    else:
+                        raise ExtractError(f"{what}: cannot tell on which branch of the test the guarded action is performed")
+            # push the negations inwards: every connective on the way must come out as a conjunction, so that the
+            # comparison (with its final polarity) is a necessary condition of the action
+            parity = branch
+            for kind in reversed(path):
+                if kind == "not":
+                    parity = -parity
+                elif (kind == "and") != (parity > 0):
+                    raise ExtractError(f"{what}: the comparison is one alternative of a disjunction")
+            sign = parity
+            if sign < 0:
                 op = NEGATE[op]
             return op, kb - ja
     raise ExtractError(f"comparison not found: {what}")
@@ -180,8 +301,12 @@ def canonical_guard(op, off, clamp, what):
     return c
 
 
-def guard_fact(fn, left_word, right_word, what, clamp=False, allow_offset=True):
-    op, off = compare_shape(fn, left_word, right_word, what)
+def guard_fact(fn, left_word, right_word, what, clamp=False, allow_offset=True, marker=None, negate=False):
+    """negate: the fact is the condition under which the action is NOT performed (count-min remove keeps the
+    value when it is above the lower limit; the action found by the marker is the clamp)"""
+    op, off = compare_shape(fn, left_word, right_word, what, marker)
+    if negate:
+        op = NEGATE[op]
     if off != 0 and not allow_offset:
         raise ExtractError(f"{what}: offset {off:+d} in a non-integer comparison")
     return ("Guard", (op, off, canonical_guard(op, off, clamp, what)))
@@ -292,62 +417,113 @@ def self_attr_assign(fn, attr):
     return [v for _, v in sorted(out)]
 
 
-def fnv_consts(fn, what):
-    """(offset, multiplier, prime) of `hval = (OFF + (MULT * seed)) & MASK` and `<x>_prime = PRIME`"""
-    off = mult = prime = maskname = None
-    masked = None
-    # integer literals bound to a local name exactly once (`fnv_64_offset = 14695981039346656037`)
-    local, seen = {}, {}
+def _fnv_loop(fn, var=None):
+    """the xor / multiply / mask loop over one name: (name, multiplier expr, mask expr) or None"""
+    for node in ast.walk(fn):
+        if isinstance(node, ast.For):
+            steps = [st for st in node.body if isinstance(st, ast.AugAssign) and isinstance(st.target, ast.Name)]
+            if len(steps) == 3 and len({st.target.id for st in steps}) == 1 and [type(st.op) for st in steps] == [ast.BitXor, ast.Mult, ast.BitAnd]:
+                if var is None or steps[0].target.id == var:
+                    return steps[0].target.id, steps[1].value, steps[2].value
+    return None
+
+
+def _single_assign(fn, name):
+    vals = [n.value for n in ast.walk(fn) if isinstance(n, ast.Assign) and len(n.targets) == 1 and isinstance(n.targets[0], ast.Name) and n.targets[0].id == name]
+    return vals[0] if len(vals) == 1 else None
+
+
+def fnv_consts(tree, fn, what, consts):
+    """(offset, multiplier, prime, mask value, start masked?) of a seeded FNV-1a:
+         h = (OFF + (MULT * seed)) & MASK      -- or without the mask
+         for unit in key: h ^= unit; h *= PRIME; h &= MASK
+    The literals may be spelled in place, through a local name bound once, or through a module-level constant;
+    the loop may live in a module-level helper that is called with the start value, the prime and the mask.
+    Anything else raises ExtractError."""
+    env = dict(consts)
+    env.update(module_constants(tree))
     for node in ast.walk(fn):
         if isinstance(node, ast.Assign) and len(node.targets) == 1 and isinstance(node.targets[0], ast.Name):
             nm = node.targets[0].id
-            seen[nm] = seen.get(nm, 0) + 1
-            if isinstance(node.value, ast.Constant) and isinstance(node.value.value, int) and not isinstance(node.value.value, bool):
-                local[nm] = node.value.value
-        elif isinstance(node, ast.AugAssign) and isinstance(node.target, ast.Name):
-            seen[node.target.id] = seen.get(node.target.id, 0) + 2
-    local = {k: v for k, v in local.items() if seen.get(k) == 1}
+            if _single_assign(fn, nm) is node.value:
+                try:
+                    v = _const_eval(node.value, env)
+                    if isinstance(v, int):
+                        env[nm] = v
+                except ExtractError:
+                    pass
 
-    def lit(n):
-        if isinstance(n, ast.Constant) and isinstance(n.value, int) and not isinstance(n.value, bool):
-            return n.value
-        if isinstance(n, ast.Name) and n.id in local:
-            return local[n.id]
-        return None
+    def lit(n, e=None):
+        try:
+            v = _const_eval(n, e or env)
+        except ExtractError:
+            return None
+        return v if isinstance(v, int) and not isinstance(v, bool) else None
 
-    for node in ast.walk(fn):
-        if isinstance(node, ast.Assign) and len(node.targets) == 1 and isinstance(node.targets[0], ast.Name):
-            name = node.targets[0].id
-            if name == "hval" and isinstance(node.value, ast.BinOp) and isinstance(node.value.op, (ast.BitAnd, ast.Add)):
-                if isinstance(node.value.op, ast.BitAnd):
-                    masked = True
-                    inner = node.value.left
-                    if isinstance(node.value.right, ast.Name):
-                        maskname = node.value.right.id
-                else:
-                    # `hval = OFF + (MULT * seed)` without the mask
-                    masked = False
-                    inner = node.value
-                if isinstance(inner, ast.BinOp) and isinstance(inner.op, ast.Add):
-                    off = lit(inner.left)
-                    prod = inner.right
-                    if isinstance(prod, ast.BinOp) and isinstance(prod.op, ast.Mult) and lit(prod.left) is not None:
-                        if isinstance(prod.right, ast.Name) and prod.right.id == "seed":
-                            mult = lit(prod.left)
-            elif name.endswith("_prime") and isinstance(node.value, ast.Constant):
-                prime = node.value.value
-    # the loop must be xor, multiply, mask in this order
-    order = []
-    for node in ast.walk(fn):
-        if isinstance(node, ast.For):
-            for st in node.body:
-                if isinstance(st, ast.AugAssign) and isinstance(st.target, ast.Name) and st.target.id == "hval":
-                    order.append(type(st.op).__name__)
-                    if isinstance(st.op, ast.BitAnd) and isinstance(st.value, ast.Name) and maskname is None:
-                        maskname = st.value.id  # the loop's mask, when the initialisation has none
-    if None in (off, mult, prime, maskname, masked) or order != ["BitXor", "Mult", "BitAnd"]:
-        raise ExtractError(f"fnv shape not recognised: {what} ({off},{mult},{prime},{maskname},{order})")
-    return off, mult, prime, maskname, masked
+    loop = _fnv_loop(fn)
+    if loop is not None:
+        var, prime_e, mask_e = loop
+        start_e = None
+        for node in ast.walk(fn):
+            if isinstance(node, ast.Assign) and len(node.targets) == 1 and isinstance(node.targets[0], ast.Name) and node.targets[0].id == var:
+                start_e = node.value
+                break
+        prime, mask = lit(prime_e), lit(mask_e)
+    else:
+        # the loop lives in a helper: f(..) = helper(key, <start>, <prime>, <mask>)
+        start_e = prime = mask = None
+        for node in ast.walk(fn):
+            if isinstance(node, ast.Call) and isinstance(node.func, ast.Name):
+                try:
+                    g = _find_def(tree, None, node.func.id)
+                except ExtractError:
+                    continue
+                params = [a.arg for a in g.args.args]
+                bound = {}
+                for i, a in enumerate(node.args):
+                    if i < len(params):
+                        bound[params[i]] = a
+                for kw in node.keywords:
+                    bound[kw.arg] = kw.value
+                for prm in params:
+                    lp = _fnv_loop(g, prm)
+                    if lp is None or prm not in bound:
+                        continue
+                    _, prime_e, mask_e = lp
+
+                    def through(e):
+                        if isinstance(e, ast.Name) and e.id in bound:
+                            return bound[e.id]
+                        return e
+
+                    start_e = bound[prm]
+                    if isinstance(start_e, ast.Name) and _single_assign(fn, start_e.id) is not None:
+                        start_e = _single_assign(fn, start_e.id)
+                    prime, mask = lit(through(prime_e)), lit(through(mask_e))
+                    break
+            if start_e is not None:
+                break
+    if start_e is None or prime is None or mask is None:
+        raise ExtractError(f"fnv shape not recognised: {what} (loop/prime/mask)")
+    masked = False
+    inner = start_e
+    if isinstance(inner, ast.BinOp) and isinstance(inner.op, ast.BitAnd):
+        if lit(inner.right) != mask:
+            raise ExtractError(f"fnv shape not recognised: {what} (start mask differs from the loop mask)")
+        masked = True
+        inner = inner.left
+    off = mult = None
+    if isinstance(inner, ast.BinOp) and isinstance(inner.op, ast.Add):
+        off = lit(inner.left)
+        prod = inner.right
+        if isinstance(prod, ast.BinOp) and isinstance(prod.op, ast.Mult):
+            if isinstance(prod.right, ast.Name) and prod.right.id == "seed":
+                mult = lit(prod.left)
+            elif isinstance(prod.left, ast.Name) and prod.left.id == "seed":
+                mult = lit(prod.right)
+    if off is None or mult is None:
+        raise ExtractError(f"fnv shape not recognised: {what} (start value is not OFF + MULT * seed)")
+    return off, mult, prime, mask, masked
 
 
 FIELD = {"Q": "u64", "q": "i64", "I": "u32", "i": "i32", "f": "f32", "B": "u8", "L": "u64"}
@@ -415,10 +591,8 @@ def _extract_into(repo, facts, attempt):
     for fn_name, tag in [("fnv_1a", "fnv64"), ("fnv_1a_32", "fnv32")]:
 
         def fnv(fn_name=fn_name):
-            off, mult, prime, maskname, masked = fnv_consts(_find_def(hashes, None, fn_name), fn_name)
-            if maskname not in consts:
-                raise ExtractError(f"{fn_name}: mask {maskname}")
-            return [("Nat", off), ("Nat", mult), ("Nat", prime), ("Nat", consts[maskname]), ("Bool", masked)]
+            off, mult, prime, mask, masked = fnv_consts(hashes, _find_def(hashes, None, fn_name), fn_name, consts)
+            return [("Nat", off), ("Nat", mult), ("Nat", prime), ("Nat", mask), ("Bool", masked)]
 
         attempt([tag + "Offset", tag + "Mult", tag + "Prime", tag + "Mask", tag + "StartMasked"], fnv)
 
@@ -430,24 +604,25 @@ def _extract_into(repo, facts, attempt):
     cck = _parse(repo, "probables/cuckoo/countingcuckoo.py")
     qf = _parse(repo, "probables/quotientfilter/quotientfilter.py")
 
+    # role -> (module, class, attribute, documented format: used only to recognise the struct when its name is gone)
     layouts = {
-        "bloomFooter": (bloom, "BloomFilter", "_FOOTER_STRUCT"),
-        "bloomFooterHex": (bloom, "BloomFilter", "_FOOTER_STRUCT_BE"),
-        "bloomFpr": (bloom, "BloomFilter", "_FPR_STRUCT"),
-        "bloomCell": (bloom, "BloomFilter", "_IMPT_STRUCT"),
-        "onDiskCount": (bloom, "BloomFilterOnDisk", "_EXPECTED_ELM_STRUCT"),
-        "onDiskUpdateOffset": (bloom, "BloomFilterOnDisk", "_UPDATE_OFFSET"),
-        "cbfCell": (cbf, "CountingBloomFilter", "_IMPT_STRUCT"),
-        "expFooter": (exp, "ExpandingBloomFilter", "__FOOTER_STRUCT"),
-        "expCount": (exp, "ExpandingBloomFilter", "__S_INT64_STRUCT"),
-        "cmsFooter": (cms, "CountMinSketch", "__FOOTER_STRUCT"),
-        "cmsCell": (cms, "CountMinSketch", "__BASIC_BIN_STRUCT"),
-        "cuckooFooter": (cko, "CuckooFilter", "_CUCKOO_FOOTER_STRUCT"),
-        "ccfFooter": (cck, "CountingCuckooFilter", "__COUNTING_CUCKOO_FOOTER_STRUCT"),
-        "ccfBin": (cck, "CountingCuckooFilter", "__BIN_STRUCT"),
+        "bloomFooter": (bloom, "BloomFilter", "_FOOTER_STRUCT", "QQf"),
+        "bloomFooterHex": (bloom, "BloomFilter", "_FOOTER_STRUCT_BE", ">QQf"),
+        "bloomFpr": (bloom, "BloomFilter", "_FPR_STRUCT", "f"),
+        "bloomCell": (bloom, "BloomFilter", "_IMPT_STRUCT", "B"),
+        "onDiskCount": (bloom, "BloomFilterOnDisk", "_EXPECTED_ELM_STRUCT", "Q"),
+        "onDiskUpdateOffset": (bloom, "BloomFilterOnDisk", "_UPDATE_OFFSET", "Qf"),
+        "cbfCell": (cbf, "CountingBloomFilter", "_IMPT_STRUCT", "I"),
+        "expFooter": (exp, "ExpandingBloomFilter", "__FOOTER_STRUCT", "QQQf"),
+        "expCount": (exp, "ExpandingBloomFilter", "__S_INT64_STRUCT", "Q"),
+        "cmsFooter": (cms, "CountMinSketch", "__FOOTER_STRUCT", "IIq"),
+        "cmsCell": (cms, "CountMinSketch", "__BASIC_BIN_STRUCT", "i"),
+        "cuckooFooter": (cko, "CuckooFilter", "_CUCKOO_FOOTER_STRUCT", "II"),
+        "ccfFooter": (cck, "CountingCuckooFilter", "__COUNTING_CUCKOO_FOOTER_STRUCT", "II"),
+        "ccfBin": (cck, "CountingCuckooFilter", "__BIN_STRUCT", "II"),
     }
-    for name, (tree, cls, attr) in layouts.items():
-        attempt([name], lambda tree=tree, cls=cls, attr=attr: ("Layout", struct_fmt(tree, cls, attr)))
+    for name, (tree, cls, attr, doc) in layouts.items():
+        attempt([name], lambda tree=tree, cls=cls, attr=attr, doc=doc: ("Layout", struct_fmt(tree, cls, attr, doc)))
 
     def cuckoo_cell():
         single = _class_assign(cko, "CuckooFilter", "_CUCKOO_SINGLE_INT_C")
@@ -497,19 +672,32 @@ def _extract_into(repo, facts, attempt):
     attempt(["cmsLn2"], cms_float)
 
     # guards
-    attempt(["expGrowCmp"], lambda: guard_fact(_find_def(exp, "ExpandingBloomFilter", "__check_for_growth"), "elements_added", "est_elements", "expanding growth test"))
+    attempt(["expGrowCmp"], lambda: guard_fact(_find_def(exp, "ExpandingBloomFilter", "__check_for_growth"), "elements_added", "est_elements", "expanding growth test", marker=marker_calls("add_bloom")))
     attempt(["rotReadyCmp"], lambda: guard_fact(_find_def(exp, "RotatingBloomFilter", "__rotate_bloom_filter"), "elements_added", "estimated_elements", "rotating ready test"))
     attempt(["rotRoomCmp"], lambda: guard_fact(_find_def(exp, "RotatingBloomFilter", "__rotate_bloom_filter"), "current_queue_size", "_queue_size", "rotating room test"))
-    attempt(["cmsAddClampCmp"], lambda: guard_fact(_find_def(cms, "CountMinSketch", "add_alt"), None, "INT32_T_MAX", "cms add clamp", clamp=True))
-    attempt(["cmsRemoveKeepCmp"], lambda: guard_fact(_find_def(cms, "CountMinSketch", "remove_alt"), None, "INT32_T_MIN", "cms remove clamp", clamp=True))
-    attempt(["cmsTotalMaxCmp"], lambda: guard_fact(_find_def(cms, "CountMinSketch", "add_alt"), "elements_added", "INT64_T_MAX", "cms total clamp", clamp=True))
-    attempt(["cbfAddClampCmp"], lambda: guard_fact(_find_def(cbf, "CountingBloomFilter", "add_alt"), None, "UINT32_T_MAX", "cbf add clamp", clamp=True))
-    attempt(["qfResizeCmp"], lambda: guard_fact(_find_def(qf, "QuotientFilter", "add_alt"), "load_factor", "_max_load_factor", "qf auto-resize test", allow_offset=False))
+    attempt(["cmsAddClampCmp"], lambda: guard_fact(_find_def(cms, "CountMinSketch", "add_alt"), None, "INT32_T_MAX", "cms add clamp", clamp=True, marker=marker_assigns("INT32_T_MAX")))
+    attempt(["cmsRemoveKeepCmp"], lambda: guard_fact(_find_def(cms, "CountMinSketch", "remove_alt"), None, "INT32_T_MIN", "cms remove clamp", clamp=True, marker=marker_assigns("INT32_T_MIN"), negate=True))
+    attempt(["cmsTotalMaxCmp"], lambda: guard_fact(_find_def(cms, "CountMinSketch", "add_alt"), "elements_added", "INT64_T_MAX", "cms total clamp", clamp=True, marker=marker_assigns("INT64_T_MAX")))
+    attempt(["cbfAddClampCmp"], lambda: guard_fact(_find_def(cbf, "CountingBloomFilter", "add_alt"), None, "UINT32_T_MAX", "cbf add clamp", clamp=True, marker=marker_assigns("UINT32_T_MAX")))
+    attempt(["qfResizeCmp"], lambda: guard_fact(_find_def(qf, "QuotientFilter", "add_alt"), "load_factor", "_max_load_factor", "qf auto-resize test", allow_offset=False, marker=marker_calls("resize")))
     def qf_load():
-        mlf = self_attr_assign(_find_def(qf, "QuotientFilter", "__set_params"), "_max_load_factor")
-        if len(mlf) != 1 or not isinstance(mlf[0], float):
+        fn = _find_def(qf, "QuotientFilter", "__set_params")
+        env = module_constants(qf)
+        vals = []
+        for node in ast.walk(fn):
+            tgt = val = None
+            if isinstance(node, ast.Assign) and len(node.targets) == 1:
+                tgt, val = node.targets[0], node.value
+            elif isinstance(node, ast.AnnAssign) and node.value is not None:
+                tgt, val = node.target, node.value
+            if isinstance(tgt, ast.Attribute) and tgt.attr == "_max_load_factor":
+                try:
+                    vals.append(_const_eval(val, env))
+                except ExtractError:
+                    vals.append(None)
+        if len(vals) != 1 or not isinstance(vals[0], float):
             raise ExtractError("QuotientFilter max load factor")
-        return ("Float", mlf[0])
+        return ("Float", vals[0])
 
     attempt(["qfMaxLoad"], qf_load)
 
